@@ -87,7 +87,9 @@ def make_valid(rng):
     w = rng.choice([None, None, "0.5", "0.25", "1.000", "2", "1e-1", ".75"])
     tokens = ["if"] + toks + ["then"] + cons_tokens(cs) + (["with", w] if w else [])
     row = {v["name"]: rng.choice([0.0, 0.25, 0.5, 0.6, 1.0, rng.random()]) for v in vars_ if not v["out"]}
-    return {"vars": vars_, "tokens": tokens, "conj": rng.choice(A.TNORMS), "disj": rng.choice(A.SNORMS), "rows": [row]}
+    # continuous operators only: the values of accepted texts are compared without a fragile-point analysis (C06 does that)
+    return {"vars": vars_, "tokens": tokens, "conj": rng.choice(["Minimum", "AlgebraicProduct", "BoundedDifference"]),
+            "disj": rng.choice(["Maximum", "AlgebraicSum", "BoundedSum"]), "rows": [row]}
 
 
 def spell(tokens, rng=None):
